@@ -14,7 +14,7 @@ EXTENDS Integers, Sequences, FiniteSets, TLC
 Classes == {"static", "stack", "heap", "data"}
 Releasing == {"del_raw", "dealloc", "dealloc_raw", "dealloc_root"}             \* release any heap object they are given
 Managed   == {"del", "del_root"}                                \* go through the collector's registry
-InPlace   == {"resize", "assign", "assignin", "concat", "push", "pop", "popat",     \* String / Tuple reallocate their own storage
+InPlace   == {"resize", "assign", "assignin", "concat", "concatself", "push", "pop", "popat",     \* String / Tuple reallocate their own storage
               "append", "printto", "lookfrom", "lookempty", "scanshow"}  \* ... also through formatted writes and look / scan into a String
 Ops == Releasing \cup Managed \cup InPlace
 Swapping  == {"swapstack", "swapheap"}                          \* swap with an object of the same type from another storage class
